@@ -34,7 +34,13 @@ theorem ladMem_fmem (nm : String) (w : Bool) (rk nonce inp aad : List Nat) (dlen
      fun dc tc hdc htc off n hn => fmem_read_tmp nm w rk dc nonce inp aad tc off n hn (by omega),
      fun dc tc => fmem_sym_shuffle1 .., fun dc tc => fmem_sym_shuffle2 ..⟩,
    fun dc tc i hdc htc hi => fmem_read_rk nm w rk dc nonce inp aad tc hrk i hi,
-   fun dc tc hdc htc off n hn => fmem_read_inp nm w rk dc nonce inp aad tc off n hn (by omega)⟩
+   fun dc tc o n bs hdc htc hbs hle _ =>
+     SrcFrom.ofData (fun off n hn => fmem_read_inp nm w rk _ nonce inp aad tc off n hn (by omega)) _⟩
+
+/-- the input region is readable whatever destination and scratch hold -/
+theorem srcFrom_fmem (nm : String) (w : Bool) (rk dc nonce inp aad tc : List Nat) (hil : inp.length < 2 ^ 32) (o : Nat) :
+    SrcFrom (fmem nm w rk dc nonce inp aad tc) 85899345920 inp o :=
+  SrcFrom.ofData (fun off n hn => fmem_read_inp nm w rk dc nonce inp aad tc off n hn (by omega)) o
 
 end SMGo.Proofs.ISAVal
 namespace SMGo.Proofs.ISAVal
